@@ -47,6 +47,7 @@ func equalFacts(a, b factSet) bool {
 
 // NilFlow holds the non-nil facts at the entry of each block of a function.
 type NilFlow struct {
+	phiBusy map[*ssa.Phi]bool // phis being evaluated by valueNonNil (cycle guard)
 	c     *Ctx
 	fn    *ssa.Function
 	entry map[*ssa.BasicBlock]factSet
@@ -426,6 +427,16 @@ func (nf *NilFlow) valueNonNil(v ssa.Value, f factSet) bool {
 			}
 		}
 	case *ssa.Phi:
+		// a web of phis (a variable carried round a loop) is non-nil when every value entering it from
+		// outside is: a phi met again on the way counts as settled
+		if nf.phiBusy == nil {
+			nf.phiBusy = map[*ssa.Phi]bool{}
+		}
+		if nf.phiBusy[x] {
+			return true
+		}
+		nf.phiBusy[x] = true
+		defer delete(nf.phiBusy, x)
 		for _, e := range x.Edges {
 			if !nf.valueNonNil(e, f) {
 				return false
